@@ -231,17 +231,20 @@ PLANS = {
                         dict(profile="ext", maxlen=5, maxdepth=5, require=("EXT",)),
                         dict(profile="mixed", maxlen=14, simulate=120, depth=14, minstop=7, maxdepth=6)],
                   per_shape=1, natural=400),
-    "thorough": dict(plan=[dict(profile="calls", maxlen=6), dict(profile="data", maxlen=6),
-                           dict(profile="sharing", maxlen=6), dict(profile="headers", maxlen=6), dict(profile="objcont", maxlen=6),
-                           dict(profile="memoglobal", maxlen=9, maxdepth=4, require=("STACK_GLOBAL", "MEMOIZE", "PUT", "GET")),
-                           dict(profile="memoslots", maxlen=8, maxdepth=4, require=("MEMOIZE", "PUT", "GET")),
+    # (the thorough tier enumerates one length more; the sets are large, so each profile contributes a seeded sample of at
+    # most its budget - the seed decides which - and everything is processed in chunks)
+    "thorough": dict(plan=[dict(profile="calls", maxlen=6, sample=90000), dict(profile="data", maxlen=6, sample=50000),
+                           dict(profile="sharing", maxlen=6, sample=50000), dict(profile="headers", maxlen=6, sample=40000),
+                           dict(profile="objcont", maxlen=6, sample=40000),
+                           dict(profile="memoglobal", maxlen=9, maxdepth=4, require=("STACK_GLOBAL", "MEMOIZE", "PUT", "GET"), sample=40000),
+                           dict(profile="memoslots", maxlen=8, maxdepth=4, require=("MEMOIZE", "PUT", "GET"), sample=40000),
                            dict(profile="shadow", maxlen=7, maxdepth=5, shadow=True),
                            dict(profile="emptybatch", maxlen=8, maxdepth=5, emptybatch=True),
                            dict(profile="kwargs", maxlen=9, maxdepth=6, require=("NEWOBJ_EX", "SETITEM")),
                            dict(profile="kwdup", maxlen=11, maxdepth=7, require=("NEWOBJ_EX", "DICT")),
-                           dict(profile="eqkeys", maxlen=7, maxdepth=6, sample=60000),
+                           dict(profile="eqkeys", maxlen=7, maxdepth=6, sample=30000),
                            dict(profile="ext", maxlen=6, maxdepth=5, require=("EXT",)),
-                           dict(profile="mixed", maxlen=30, simulate=6000, depth=30, minstop=10, maxdepth=8)],
+                           dict(profile="mixed", maxlen=30, simulate=6000, depth=30, minstop=10, maxdepth=8, sample=60000)],
                      per_shape=2, natural=6000),
 }
 
@@ -290,19 +293,49 @@ def run_family(ctx, prop, clause_of, nontrivial, rule, want=("steps", "dec", "ch
         it["tag"] = items[k].get("tag", "")
         again.append(it)
     seq = [items[k] for k in order] + again
-    records = sorted(rec_vm.record_many(seq), key=lambda r: r["id"])
-    t2 = _t.time()
-    verdicts = validate(ctx, records)
-    ctx.notes.append(f"phases: generate+instantiate {t1 - t0:.1f}s, record {t2 - t1:.1f}s, validate {_t.time() - t2:.1f}s")
+    # recorded, validated and judged in chunks, so that memory stays bounded whatever the tier's volume
     failures, mach, samples = [], [], []
     pre_evals = 0
     if pre is not None:
         failures, pre_evals = pre(ctx)
-    nontriv, outdom = set(), 0
+    nontriv, outdom, nrec = set(), 0, 0
     opcount = {}
-    for rec in records:
-        for o in rec["prog"]:
-            opcount[o["o"]] = opcount.get(o["o"], 0) + 1
+    t_rec = t_val = 0.0
+    CH = 150000 if ctx.quick else 50000
+    for lo in range(0, len(seq), CH):
+        ta = _t.time()
+        records = rec_vm.record_many(seq[lo:lo + CH])
+        tb = _t.time()
+        verdicts = validate(ctx, records)
+        t_rec, t_val = t_rec + tb - ta, t_val + _t.time() - tb
+        nrec += len(records)
+        for rec in records:
+            for o in rec["prog"]:
+                opcount[o["o"]] = opcount.get(o["o"], 0) + 1
+        for rec in records:
+            v = verdicts[rec["id"]]
+            if v["ref"] != "ok":
+                mach.append(f"spec/reference disagreement {v['ref']} on {assemble_safe(rec)}")
+                continue
+            if v["dom"] != "in":
+                outdom += 1
+                continue
+            if nontrivial(v, rec):
+                nontriv.add(rec["hex"])
+            if prop == "C04" and rec["fick"]["chk"]["ok"] and rec["fick"]["chk"]["sev"] < v.get("mv", 0) and len(ctx.drift) < 5 \
+                    and "F:same-name-different-module" not in features(rec):
+                ctx.drift.append(f"real verdict {rec['fick']['chk']['sev']} below the rule-set model's {v['mv']} on " + assemble_safe(rec))
+            c = clause_of(v, rec)
+            if c:
+                opset = sorted({o["o"] for o in rec["prog"]} | features(rec))
+                failures.append({"clause": c, "opset": opset,
+                                 "detail": " ".join(o["o"] for o in rec["prog"][:40]) + " hex=" + rec["hex"][:120],
+                                 "replay_obj": {"property": prop, "clause": c, "verdict": v, "record": rec}})
+        if len(samples) < 5 and records:
+            rec = records[len(records) // 2]
+            samples.append({"prog": [o["o"] for o in rec["prog"]][:30], "hex": rec["hex"][:80], "verdict": verdicts[rec["id"]]})
+        del records, verdicts
+    ctx.notes.append(f"phases: generate+instantiate {t1 - t0:.1f}s, record {t_rec:.1f}s, validate {t_val:.1f}s ({nrec} records in chunks of {CH})")
     modelled = ["CONST", "MARK", "PROTO", "FRAME", "POP", "POP_MARK", "DUP", "PUT", "MEMOIZE", "GET", "GLOBAL", "STACK_GLOBAL",
                 "EMPTY_TUPLE", "TUPLE1", "TUPLE2", "TUPLE3", "TUPLE", "EMPTY_LIST", "EMPTY_DICT", "EMPTY_SET", "LIST", "DICT",
                 "FROZENSET", "APPEND", "APPENDS", "SETITEM", "SETITEMS", "ADDITEMS", "REDUCE", "NEWOBJ", "NEWOBJ_EX", "OBJ",
@@ -310,25 +343,6 @@ def run_family(ctx, prop, clause_of, nontrivial, rule, want=("steps", "dec", "ch
     never = [o for o in modelled if not opcount.get(o)]
     if never:       # vacuity guard: every transition of the reference machine must be exercised by the tier's inputs
         mach.append("opcodes of the specification never exercised by this run: " + ",".join(never))
-    for rec in records:
-        v = verdicts[rec["id"]]
-        if v["ref"] != "ok":
-            mach.append(f"spec/reference disagreement {v['ref']} on {assemble_safe(rec)}")
-            continue
-        if v["dom"] != "in":
-            outdom += 1
-            continue
-        if nontrivial(v, rec):
-            nontriv.add(rec["hex"])
-        if prop == "C04" and rec["fick"]["chk"]["ok"] and rec["fick"]["chk"]["sev"] < v.get("mv", 0) and len(ctx.drift) < 5 \
-                and "F:same-name-different-module" not in features(rec):
-            ctx.drift.append(f"real verdict {rec['fick']['chk']['sev']} below the rule-set model's {v['mv']} on " + assemble_safe(rec))
-        c = clause_of(v, rec)
-        if c:
-            opset = sorted({o["o"] for o in rec["prog"]} | features(rec))
-            failures.append({"clause": c, "opset": opset,
-                             "detail": " ".join(o["o"] for o in rec["prog"][:40]) + " hex=" + rec["hex"][:120],
-                             "replay_obj": {"property": prop, "clause": c, "verdict": v, "record": rec}})
     if os.environ.get("VERIF_DUMP"):
         with open(os.environ["VERIF_DUMP"], "w") as f:
             for fl in failures:
@@ -336,10 +350,8 @@ def run_family(ctx, prop, clause_of, nontrivial, rule, want=("steps", "dec", "ch
                                     "hex": fl["replay_obj"]["record"]["hex"], "tag": fl["replay_obj"]["record"]["tag"]}) + "\n")
     # smallest failing programs first, so that the reported witness is minimal
     failures.sort(key=lambda f: len(f["replay_obj"]["record"].get("prog", ())))
-    for rec in records[:: max(1, len(records) // 5)][:5]:
-        samples.append({"prog": [o["o"] for o in rec["prog"]][:30], "hex": rec["hex"][:80], "verdict": verdicts[rec["id"]]})
-    return finish(ctx, level="model_checking", failures=failures, evaluations=len(records) + pre_evals,
-                  distinct_nontrivial=len(nontriv), rule=rule, samples=samples, traces=len(records) + pre_evals,
+    return finish(ctx, level="model_checking", failures=failures, evaluations=nrec + pre_evals,
+                  distinct_nontrivial=len(nontriv), rule=rule, samples=samples, traces=nrec + pre_evals,
                   assumptions=ASSUME, machinery_errors=mach,
                   extra={"out_of_typed_domain": outdom, "exhaustive": False, "opcode_occurrences": opcount,
                          "profiles": [f"{g['profile']}:len{g['maxlen']}" + (":simulate" if g.get("simulate") else (":exhaustive-sampled" if g.get("sample") else ":exhaustive"))
